@@ -36,7 +36,14 @@ theorem pruneInside_inside (s : S) (off : OId) (k : CKind) (x : OId) :
     ∀ op ∈ pruneInside s off k x, op.inside (CopyR off) := by
   intro op hop
   have hsh := mem_shPL_inR off
-  cases k <;> simp only [pruneInside, List.mem_append, List.mem_flatMap, List.mem_map, List.mem_filter, cutInner, cutWire] at hop
+  by_cases hk : k = .netlist
+  · subst hk
+    simp only [pruneInside, List.mem_flatMap, List.mem_map, List.mem_filter] at hop
+    obtain ⟨l, _, d, _, j, _, rfl⟩ := hop
+    simp [Op.inside, CopyR, optIn]
+  revert hk
+  cases k <;> intro hk <;> (try exact absurd rfl hk) <;>
+    simp only [pruneInside, List.mem_append, List.mem_flatMap, List.mem_map, List.mem_filter, cutInner, cutWire] at hop
   all_goals
     rcases hop with hop | hop
     all_goals first
@@ -130,7 +137,17 @@ theorem setRef_cross (s : S) (R : OId → Prop) (i d' : OId) (hi : R i) (hw : Ou
 theorem pruneCross_shape (s : S) (off : OId) (k : CKind) (x : OId) :
     ∀ op ∈ pruneCross s off k x, ∃ i r, op = .setRef (i + off) (some r) := by
   intro op hop
-  cases k <;> simp only [pruneCross, List.mem_flatMap, List.not_mem_nil] at hop
+  cases k <;> simp only [pruneCross, List.mem_flatMap, List.not_mem_nil, List.mem_append] at hop
+  · rcases hop with ⟨l, _, d, _, c, _, hm⟩ | hm
+    · obtain ⟨r, _, hm⟩ := optOps_mem _ _ _ hm
+      split at hm
+      · simp at hm
+      · simp only [List.mem_singleton] at hm; exact ⟨c, r, hm⟩
+    · obtain ⟨t, _, hm⟩ := optOps_mem _ _ _ hm
+      obtain ⟨r, _, hm⟩ := optOps_mem _ _ _ hm
+      split at hm
+      · simp at hm
+      · simp only [List.mem_singleton] at hm; exact ⟨t, r, hm⟩
   · obtain ⟨d, _, c, _, hm⟩ := hop
     obtain ⟨r, _, hm⟩ := optOps_mem _ _ _ hm
     split at hm
